@@ -325,7 +325,8 @@ def gen_params(r, panel, elig_rows, focus=None, allow=('size', 'ratio', 'volume'
 # ------------------------------------------------------------------------------ experiments
 
 def gen_experiment(r, g, n_pre=None, n_test=None, n_cool=None, n_ctl=None, n_trt=None,
-                   cost_mode=None, shape=None, extras=None, lift=None, int_dtype=None):
+                   cost_mode=None, shape=None, extras=None, lift=None, int_dtype=None,
+                   cost_scale=1.0):
   """A geo experiment frame description (geo x date x group/period/response/cost).
 
   Returns dict: frame (DataFrame, columns date geo group period response cost), plus the
@@ -380,9 +381,15 @@ def gen_experiment(r, g, n_pre=None, n_test=None, n_cool=None, n_ctl=None, n_trt
       if cost_mode == 'variable':
         cost = size * (5.0 + 0.3 * base + 0.05 * g.normal(0, 1, size=D))
         cost = np.maximum(cost, 1e-3)
+      elif cost_mode == 'treatment_pre_only' and grp == 2:
+        # the treatment group already spends before the test; the control group never does
+        cost = size * (2.0 + 0.05 * g.normal(0, 1, size=D)) * np.array([p == 0 for p in periods])
+      elif cost_mode == 'control_test_only' and grp == 1:
+        cost = size * 0.5 * in_test
       if grp == 2:
         resp = resp + size * lift * in_test
         cost = cost + size * pick(r, [3.0, 10.0]) * in_test
+      cost = cost * cost_scale
       for k in range(D):
         rows.append((dates[k], gid, grp, periods[k], float(resp[k]), float(cost[k])))
       geos.append((gid, grp))
@@ -390,14 +397,14 @@ def gen_experiment(r, g, n_pre=None, n_test=None, n_cool=None, n_ctl=None, n_trt
   r.shuffle(rows)
   frame = pd.DataFrame(rows, columns=['date', 'geo', 'group', 'period', 'response', 'cost'])
   if int_dtype is None:
-    int_dtype = r.random() < 0.2
+    int_dtype = r.random() < 0.2 and cost_scale >= 1.0
   if int_dtype:
     # whole-number metrics stored as int64 (sales counts, whole-currency spend)
     frame['response'] = np.round(frame['response'] * 10).astype('int64')
     frame['cost'] = np.round(frame['cost'] * 10).astype('int64')
   return {'frame': frame, 'int_dtype': bool(int_dtype), 'n_pre': n_pre, 'n_test': n_test, 'n_cool': n_cool, 'n_gap': n_gap,
           'n_after': n_after, 'n_ctl': n_ctl, 'n_trt': n_trt, 'cost_mode': cost_mode,
-          'shape': shape, 'extras': sorted(extras), 'dates': dates, 'periods': periods,
+          'shape': shape, 'extras': sorted(extras), 'dates': dates, 'periods': periods, 'cost_scale': cost_scale,
           'lift': lift}
 
 
